@@ -509,7 +509,10 @@ func (c *Client) reconnect(ctx context.Context) error {
 func (c *Client) doRountrip(ctx context.Context, msg *kmip.RequestMessage) (*kmip.ResponseMessage, error) {
 	c.lock.Lock()
 	defer c.lock.Unlock()
-	if c.conn == nil {
+	// Dial a fresh connection if there is none or if the current one has been
+	// terminated by an I/O error (whatever its kind), unless the client has
+	// been closed by the user.
+	if c.conn == nil || c.conn.broken() {
 		if err := c.reconnect(ctx); err != nil {
 			return nil, err
 		}
